@@ -17,10 +17,18 @@ pub struct P {
 	pub ver: u32,
 }
 
+thread_local! {
+	/// the payload with this tag reports a formatting error from its Debug impl (as a sink that fails would)
+	pub static FAIL_TAG: std::cell::Cell<Option<u32>> = const { std::cell::Cell::new(None) };
+}
+
 impl Debug for P {
 	fn fmt(&self, f: &mut std::fmt::Formatter<'_>) -> std::fmt::Result {
 		// formatting a lock's payload is a read of it (Debug for Mutex/RwLock try-locks first)
 		vlock::data_event(false, 0, self.tag, self.ver);
+		if FAIL_TAG.with(|x| x.get()) == Some(self.tag) {
+			return Err(std::fmt::Error);
+		}
 		write!(f, "P({},{})", self.tag, self.ver)
 	}
 }
@@ -279,3 +287,11 @@ unsafe impl Sharable for Node {
 // The scenario builder promises: a Node placed in an owned context (OwnedLockCollection, `new`,
 // `new_ref`) refers to something no other Node, collection or thread refers to.
 unsafe impl OwnedLockable for Node {}
+
+/// `format!("{:?}", x)` that does not panic when a Debug impl reports an error
+pub fn dbg_string<T: Debug + ?Sized>(x: &T) -> String {
+	use std::fmt::Write as _;
+	let mut s = String::new();
+	let _ = write!(s, "{:?}", x);
+	s
+}
